@@ -370,7 +370,7 @@ func RunWorker(t *testing.T) {
 		t.Fatal(err)
 	}
 	w := &Worker{t: t, Job: job, known: map[string]bool{}, seen: map[string]bool{}, start: time.Now()}
-	w.Out = WorkerOut{Property: job.Property, Faults: map[string]int{}, Probes: map[string]int{}, Counters: map[string]int{}, VioCounts: map[string]int{}}
+	w.Out = WorkerOut{Property: job.Property, Faults: map[string]int{}, Probes: map[string]int{}, Counters: map[string]int{}, VioCounts: map[string]int{}, Exhaustive: map[string]interface{}{}}
 	for _, k := range job.Known {
 		w.known[k] = true
 	}
